@@ -126,14 +126,16 @@ func (r *objectSetRemotePhaseReconciler) Reconcile(
 		ctx, client.ObjectKeyFromObject(desiredObjectSetPhase.ClientObject()),
 		currentObjectSetPhase.ClientObject(),
 	)
-	if errors.IsNotFound(err) {
+	switch {
+	case errors.IsNotFound(err):
 		if err := r.client.Create(
 			ctx, desiredObjectSetPhase.ClientObject()); err != nil {
 			return nil, controllers.ProbingResult{}, fmt.Errorf("creating new ObjectSetPhase: %w", err)
 		}
+		// Carry on with the object just created, so that the ObjectSet reports it
+		// in .status.remotePhases right away and not only in a later reconcile.
 		currentObjectSetPhase = desiredObjectSetPhase
-	}
-	if err != nil {
+	case err != nil:
 		return nil, controllers.ProbingResult{}, fmt.Errorf("getting existing ObjectSetPhase: %w", err)
 	}
 
